@@ -242,6 +242,11 @@ CATALOGUE = {
   (MF, "            if isinstance(msg, MetaMessage) and not meta_messages:\n                continue\n            else:\n                yield msg", "            yield msg", C),
   (MF, "            yield msg.copy(skip_checks=True, time=delta)\n\n            if msg.type == 'set_tempo':\n                tempo = msg.tempo",
        "            if msg.type == 'set_tempo':\n                tempo = msg.tempo\n\n            yield msg.copy(skip_checks=True, time=delta)", S),
+  # the clock is not looked at for messages that are passed over: same schedule for everything that is handed out
+  (MF, "            input_time += msg.time\n\n            playback_time = now() - start_time\n            duration_to_next_event = input_time - playback_time\n\n            if duration_to_next_event > 0.0:\n                time.sleep(duration_to_next_event)\n\n            if isinstance(msg, MetaMessage) and not meta_messages:\n                continue\n            else:\n                yield msg",
+       "            input_time += msg.time\n\n            if isinstance(msg, MetaMessage) and not meta_messages:\n                continue\n\n            playback_time = now() - start_time\n            duration_to_next_event = input_time - playback_time\n\n            if duration_to_next_event > 0.0:\n                time.sleep(duration_to_next_event)\n\n            yield msg", S),
+  # ... but the ticks of a message that is passed over count for what follows it
+  (MF, "            input_time += msg.time\n\n            playback_time = now() - start_time", "            if isinstance(msg, MetaMessage) and not meta_messages:\n                continue\n\n            input_time += msg.time\n\n            playback_time = now() - start_time", C),
  ],
  'C14': [
   (STRS, "    if not (value.startswith('(') and value.endswith(')')):", "    if not value.startswith('(') and value.endswith(')'):", C),
